@@ -129,7 +129,7 @@ func genC12(seed uint64, run int, tier string) Scenario {
 			}
 			// a dialogue of 1..5 events
 			n := between(r, 1, 5)
-			op := OpSpec{Kind: "interactive"}
+			op := OpSpec{Kind: "interactive", Exact: len(sc.Dev.Noise) == 0 && r.IntN(4) == 0}
 			early := -1
 			if n > 1 && r.IntN(4) == 0 {
 				early = r.IntN(n - 1) // after this event the device shows a completion pattern
